@@ -22,6 +22,7 @@ type cop struct {
 	Pos    token.Pos
 	Bound  string // Loop: canonical bound ("len(Outputs)", "var:count", "rest")
 	Arg    string // V/F: canonical value expression on the writer side / target on the reader side
+	Cond   string // Alt: canonical branch condition
 }
 
 type codecFn struct {
@@ -58,6 +59,9 @@ func opsString(ops []cop) string {
 	return strings.Join(s, " ")
 }
 
+// codecHelperBusy guards the inlining of package-local byte-moving helpers against recursion.
+var codecHelperBusy = map[*types.Func]bool{}
+
 type codecWalker struct {
 	pkg     *packages.Package
 	info    *types.Info
@@ -65,7 +69,7 @@ type codecWalker struct {
 	streams map[types.Object]bool
 	recv    types.Object // receiver or struct parameter whose fields are (de)serialised
 	seenFld map[string]bool
-	aliases map[types.Object]string // local var -> canonical meaning (e.g. count var)
+	aliases map[types.Object]string   // local var -> canonical meaning (e.g. count var)
 	locals  map[types.Object]ast.Expr // writer: local var -> defining expression
 	busy    map[types.Object]bool
 }
@@ -219,6 +223,12 @@ func (w *codecWalker) canon(e ast.Expr) string {
 		}
 		if a, ok := w.aliases[o]; ok {
 			return a
+		}
+		if def, ok := w.locals[o]; ok && !w.busy[o] {
+			w.busy[o] = true
+			r := w.canon(def)
+			delete(w.busy, o)
+			return r
 		}
 		return "var:" + x.Name
 	case *ast.SelectorExpr:
@@ -395,8 +405,45 @@ func (w *codecWalker) call(ce *ast.CallExpr) (cop, bool) {
 			return cop{Kind: "B", Pos: ce.Pos(), Arg: w.canon(ce.Args[1])}, true
 		}
 		return cop{}, false
+	case "io.CopyN", "io.Copy":
+		// raw bytes moved from (reader) or into (writer) the message stream
+		if len(ce.Args) >= 2 {
+			if !w.fn.Writer && w.isStream(ce.Args[1]) {
+				return cop{Kind: "B", Pos: ce.Pos()}, true
+			}
+			if w.fn.Writer && w.isStream(ce.Args[0]) {
+				w.mention(ce.Args[1])
+				return cop{Kind: "B", Pos: ce.Pos(), Arg: w.canon(ce.Args[1])}, true
+			}
+		}
+		return cop{}, false
 	}
 	sig := callee.Type().(*types.Signature)
+	if sig.Recv() == nil && callee.Pkg() == w.pkg.Types {
+		// package-local helper that only moves raw bytes (e.g. a bounded "read n bytes"): its
+		// grammar is inlined, it is not a nested codec of a named thing.
+		streamArg := false
+		for _, a := range ce.Args {
+			if w.isStream(a) {
+				streamArg = true
+			}
+		}
+		if streamArg && !codecHelperBusy[callee] {
+			if fd := findFuncDecl(w.pkg, "", callee.Name()); fd != nil {
+				codecHelperBusy[callee] = true
+				sub := extractCodec(w.pkg, fd, w.fn.Writer)
+				delete(codecHelperBusy, callee)
+				if len(sub.Undecided) == 0 && len(sub.Ops) == 1 && sub.Ops[0].Kind == "B" {
+					for _, b := range ce.Args {
+						if !w.isStream(b) {
+							w.mention(b)
+						}
+					}
+					return cop{Kind: "B", Pos: ce.Pos()}, true
+				}
+			}
+		}
+	}
 	if sig.Recv() != nil {
 		se := ast.Unparen(ce.Fun).(*ast.SelectorExpr)
 		// method on the stream itself: raw bytes
@@ -536,14 +583,14 @@ func (w *codecWalker) block(stmts []ast.Stmt) []cop {
 					return append(ops, rest...)
 				}
 				w.mention(x.Cond)
-				ops = append(ops, factorAlt(thenOps, rest, x.Pos())...)
+				ops = append(ops, w.withCond(factorAlt(thenOps, rest, x.Pos()), x.Cond)...)
 				return ops
 			}
 			if len(thenOps) == 0 && len(elseOps) == 0 {
 				continue
 			}
 			w.mention(x.Cond)
-			ops = append(ops, factorAlt(thenOps, elseOps, x.Pos())...)
+			ops = append(ops, w.withCond(factorAlt(thenOps, elseOps, x.Pos()), x.Cond)...)
 		case *ast.ForStmt:
 			if x.Init != nil {
 				ops = append(ops, w.stmtOps(x.Init)...)
@@ -680,4 +727,14 @@ func factorAlt(a, b []cop, pos token.Pos) []cop {
 		a, b = b, a
 	}
 	return append(out, cop{Kind: "Alt", A: a, B: b, Pos: pos})
+}
+
+// withCond records the canonical branch condition on the Alt produced by factorAlt.
+func (w *codecWalker) withCond(ops []cop, cond ast.Expr) []cop {
+	for i := range ops {
+		if ops[i].Kind == "Alt" {
+			ops[i].Cond = w.canon(cond)
+		}
+	}
+	return ops
 }
